@@ -912,7 +912,13 @@ fn run_bits(ctx: &mut Ctx, prop: &str, mutable: bool, gen: &BitGen) {
                                     Err(m) => ctx.violation("get_bits_unchecked", cl, format!("get_bits_unchecked({s}, {len})"), format!("{chk:?}"), format!("PANIC: {m}")),
                                 }
                             }
-                            Err(_) => ctx.count("checked_gave_no_value_on_valid_arguments"),
+                            Err(msg) => {
+                                // the checked method panics although the range is inside the vector
+                                ctx.count("checked_gave_no_value_on_valid_arguments");
+                                if let Ok(u) = trap(|| unsafe { b.get_bits_unchecked(s, len) }) {
+                                    ctx.violation("get_bits_unchecked", &sub_class(cl, "checked-panic"), format!("get_bits_unchecked({s}, {len})"), "the value of the checked method - which panics although the precondition holds".into(), format!("{u} (checked: PANIC: {msg})"));
+                                }
+                            }
                         }
                     }
                 }
